@@ -98,8 +98,20 @@ Definition leaves_spec (d : doc) (t : Q) (r : attrs) (sel : option text) : list 
     end
   else [].
 
-(* the leaves a snapshot region actually shows *)
+(* content model fact used by the theorems: br and text elements have no children *)
+Fixpoint leaf_wf (e : elem) : bool :=
+  match e with
+  | Elem a cs =>
+      match e_kind a with KBr | KText => match cs with [] => true | _ => false end | _ => true end &&
+      (fix go (l : list elem) : bool := match l with [] => true | c :: l' => leaf_wf c && go l' end) cs
+  end.
+
+(* the leaves a snapshot region actually shows: its Br and Text elements, in document order *)
 Fixpoint shown_leaves (e : elem) : list leaf :=
   match e with
-  | Elem a cs => leaf_of a ++ (fix go (l : list elem) : list leaf := match l with [] => [] | c :: l' => shown_leaves c ++ go l' end) cs
+  | Elem a cs =>
+      match e_kind a with
+      | KBr | KText => leaf_of a
+      | _ => (fix go (l : list elem) : list leaf := match l with [] => [] | c :: l' => shown_leaves c ++ go l' end) cs
+      end
   end.
